@@ -32,9 +32,9 @@ func (c stubConsensus) GetState() sm.State { return c.ch.State }
 func (c stubConsensus) GetValidators() (int64, []*types.Validator) {
 	return c.ch.State.LastBlockHeight, c.ch.State.Validators.Validators
 }
-func (c stubConsensus) GetLastHeight() int64                       { return c.ch.State.LastBlockHeight }
-func (c stubConsensus) GetRoundStateJSON() ([]byte, error)         { return []byte("{}"), nil }
-func (c stubConsensus) GetRoundStateSimpleJSON() ([]byte, error)   { return []byte("{}"), nil }
+func (c stubConsensus) GetLastHeight() int64                     { return c.ch.State.LastBlockHeight }
+func (c stubConsensus) GetRoundStateJSON() ([]byte, error)       { return []byte("{}"), nil }
+func (c stubConsensus) GetRoundStateSimpleJSON() ([]byte, error) { return []byte("{}"), nil }
 
 type stubTransport struct{ chainID string }
 
@@ -82,14 +82,14 @@ func (h *honest) OnStart() error { return nil }
 func (h *honest) OnStop()        {}
 
 // service.Service methods are ambiguous between the two embedded values; resolve them.
-func (h *honest) Start() error            { return h.BaseService.Start() }
-func (h *honest) Stop() error             { return h.BaseService.Stop() }
-func (h *honest) Reset() error            { return h.BaseService.Reset() }
-func (h *honest) OnReset() error          { return nil }
-func (h *honest) IsRunning() bool         { return h.BaseService.IsRunning() }
-func (h *honest) Quit() <-chan struct{}   { return h.BaseService.Quit() }
-func (h *honest) String() string          { return "honest" }
-func (h *honest) SetLogger(l log.Logger)  { h.BaseService.SetLogger(l) }
+func (h *honest) Start() error           { return h.BaseService.Start() }
+func (h *honest) Stop() error            { return h.BaseService.Stop() }
+func (h *honest) Reset() error           { return h.BaseService.Reset() }
+func (h *honest) OnReset() error         { return nil }
+func (h *honest) IsRunning() bool        { return h.BaseService.IsRunning() }
+func (h *honest) Quit() <-chan struct{}  { return h.BaseService.Quit() }
+func (h *honest) String() string         { return "honest" }
+func (h *honest) SetLogger(l log.Logger) { h.BaseService.SetLogger(l) }
 
 func (h *honest) Status(context.Context) (*ctypes.ResultStatus, error) { return core.Status(h.ctx) }
 func (h *honest) ABCIInfo(context.Context) (*ctypes.ResultABCIInfo, error) {
